@@ -69,7 +69,8 @@ SeqSet(s) == {s[i] : i \in DOMAIN s}
 \*       ackDue   - ep -> virtual time by which ep owes a SACK for data it was handed, -1 if none
 \*       incn     - <<ep,sid>> -> incarnation counter (open/accept events)
 MiscInit == [probe |-> [e \in EP |-> -1], thr |-> <<>>, cbs |-> <<>>, ackDue |-> [e \in EP |-> -1],
-             incn |-> <<>>, fwdMax |-> [e \in EP |-> -1]]
+             incn |-> <<>>, fwdMax |-> [e \in EP |-> -1],
+             nack |-> [line |-> 0, to |-> -1, set |-> {}, hb |-> FALSE], teardown |-> FALSE, txn |-> [e \in EP |-> 0]]
 
 InitVars ==
   /\ scen = "" /\ cfg = [none |-> TRUE]
@@ -217,14 +218,15 @@ TxViol(p) ==
 
 TrTx ==
   /\ IsEv("tx")
-  /\ pkt' = (E.pid :> [ep |-> E.ep, ck |-> E.ck, forged |-> FALSE, t |-> E.t, kinds |-> E.kinds, chunks |-> <<>>]) @@ pkt
+  /\ pkt' = (E.pid :> [ep |-> E.ep, ck |-> E.ck, forged |-> FALSE, genuine |-> TRUE, t |-> E.t, kinds |-> E.kinds, chunks |-> <<>>]) @@ pkt
   /\ viol' = viol \cup TxViol(E)
+  /\ misc' = [misc EXCEPT !.txn[E.ep] = @ + 1]
   /\ l' = l + 1
-  /\ UNCHANGED <<scen, cfg, msg, order, reads, ch, hi, rcvd, skipTo, ackCum, ackGap, arw, outst, lastSack, sackEv, sn, step, newData, misc, rs, acc>>
+  /\ UNCHANGED <<scen, cfg, msg, order, reads, ch, hi, rcvd, skipTo, ackCum, ackGap, arw, outst, lastSack, sackEv, sn, step, newData, rs, acc>>
 
 TrForge ==
   /\ IsEv("forge")
-  /\ pkt' = (E.pid :> [ep |-> E.ep, ck |-> E.ck, forged |-> TRUE, t |-> E.t, kinds |-> E.kinds, chunks |-> <<>>]) @@ pkt
+  /\ pkt' = (E.pid :> [ep |-> E.ep, ck |-> E.ck, forged |-> TRUE, genuine |-> E.genuine, t |-> E.t, kinds |-> E.kinds, chunks |-> <<>>]) @@ pkt
   /\ l' = l + 1
   /\ UNCHANGED <<scen, cfg, msg, order, reads, ch, hi, rcvd, skipTo, ackCum, ackGap, arw, outst, lastSack, sackEv, sn, step, newData, misc, rs, acc, viol>>
 
@@ -371,11 +373,16 @@ Wellformed(c) == "bad" \notin DOMAIN c
 \* an owed SACK whose deadline passed before virtual time t (checked whenever time is observed)
 AckLate(t) == {V("C19_AckDelay", <<e, misc.ackDue[e], t>>) : e \in {x \in EP : misc.ackDue[x] >= 0 /\ t > misc.ackDue[x]}}
 
+\* C13: the checksum acceptance rule, from the harness's own CRC32c classification of the packet
+AcceptCk(p, e) == IF p.ck = "ok" THEN TRUE
+                  ELSE IF p.ck = "zero" THEN Cfg(e).zc /\ p.kinds # <<>> /\ p.kinds[1] \notin {"init", "cookieecho"}
+                  ELSE FALSE
+
 TrRx ==
   /\ IsEv("rx")
   /\ LET p    == pkt[E.pid]
          to   == E.to
-         live == E.ok /\ p.ck # "bad" /\ ~p.forged
+         live == E.ok /\ AcceptCk(p, to) /\ p.genuine
          dataT == {c.tsn : c \in ChunksOfKind(p, DataKinds)}
          fwds  == {c.cum : c \in {x \in ChunksOfKind(p, {"fwd", "ifwd"}) : Wellformed(x)}}
          \* a SACK whose cumulative point is behind what was already acknowledged is stale (RFC 4960 6.2.1 D i)
@@ -395,8 +402,10 @@ TrRx ==
        /\ arw' = [arw EXCEPT ![to] = IF live /\ sacks # {} THEN (CHOOSE c \in sacks : TRUE).arwnd
                                      ELSE IF live /\ inits # {} THEN (CHOOSE c \in inits : TRUE).arwnd ELSE @]
        \* C19: data handed to an established endpoint must be acknowledged within 200 ms
-       /\ misc' = IF live /\ dataT # {} /\ sn[to] # NoSnap /\ sn[to].st = "established" /\ misc.ackDue[to] < 0
-                  THEN [misc EXCEPT !.ackDue[to] = E.t + 200] ELSE misc
+       /\ misc' = [(IF live /\ dataT # {} /\ sn[to] # NoSnap /\ sn[to].st = "established" /\ misc.ackDue[to] < 0
+                   THEN [misc EXCEPT !.ackDue[to] = E.t + 200] ELSE misc)
+                  EXCEPT !.nack = [line |-> l, to |-> to, set |-> newly,
+                                   hb |-> live /\ ChunksOfKind(p, {"hback"}) # {}]]
        /\ viol' = viol \cup AckLate(E.t)
   /\ step' = E
   /\ l' = l + 1
@@ -451,7 +460,7 @@ RxFold(st, e, s, chunks, i) ==
 NewlyRegistered(e, s) == {sid \in SeqSet(s.reg) : sn[e] # NoSnap /\ sid \notin SeqSet(sn[e].reg)}
 RxResult(e, s) ==
   LET R0 == [k \in DOMAIN rs |-> IF k[1] = e /\ k[2] \in NewlyRegistered(e, s) THEN ReasmInit ELSE rs[k]]
-      live == step.ev = "rx" /\ step.to = e /\ step.ok /\ step.pid \in DOMAIN pkt /\ pkt[step.pid].ck # "bad"
+      live == step.ev = "rx" /\ step.to = e /\ step.ok /\ step.pid \in DOMAIN pkt /\ AcceptCk(pkt[step.pid], e) /\ pkt[step.pid].genuine
   IN IF live THEN RxFold([R |-> R0, seen |-> {}], e, s, pkt[step.pid].chunks, 1) ELSE [R |-> R0, seen |-> {}]
 
 \* ---- sender-side accounting (C15) ----------------------------------------------------------
@@ -470,7 +479,7 @@ SnapViol(s, R) ==
       \* new user data is sent only within cwnd and the peer's advertised window; probe exception
       badWindow == {i \in DOMAIN nd : nd[i].before # 0 /\ ~(nd[i].after <= s.cwnd /\ nd[i].after - nd[i].allow <= arw[e])}
       \* the strong completeness check: the step delivered one packet of DATA chunks only
-      p  == IF step.ev = "rx" /\ step.pid \in DOMAIN pkt THEN pkt[step.pid] ELSE [kinds |-> <<>>, forged |-> TRUE]
+      p  == IF step.ev = "rx" /\ step.pid \in DOMAIN pkt THEN pkt[step.pid] ELSE [kinds |-> <<>>, forged |-> TRUE, genuine |-> FALSE]
       onlyData == step.ev = "rx" /\ step.to = e /\ ~p.forged /\ p.kinds # <<>> /\ \A i \in DOMAIN p.kinds : p.kinds[i] \in DataKinds
       sk == sackEv[e]
       prev == sn[e]
@@ -482,7 +491,7 @@ SnapViol(s, R) ==
       mtu == Cfg(e).mtu
       floorC == MaxI(mtu, Cfg(e).mincwnd)
       half(x) == MaxI(x \div 2, 4 * mtu)
-      dataHanded == step.ev = "rx" /\ step.to = e /\ step.ok /\ ~p.forged /\ "ck" \in DOMAIN p /\ p.ck # "bad"
+      dataHanded == step.ev = "rx" /\ step.to = e /\ step.ok /\ "ck" \in DOMAIN p /\ p.genuine /\ AcceptCk(p, e)
                     /\ \E i \in DOMAIN p.kinds : p.kinds[i] \in DataKinds
       \* a gap or a duplicate was seen in the packet just handed to e
       dataCs == IF dataHanded THEN {c \in ChunksOfKind(p, DataKinds) : "bad" \notin DOMAIN c} ELSE {}
@@ -520,11 +529,42 @@ SnapViol(s, R) ==
                              th == misc.thr[<<e, y.sid>>]
                              crossed == py # {} /\ (CHOOSE z \in py : TRUE).ba > th /\ y.ba <= th
                          IN Get(misc.cbs, <<e, y.sid>>, 0) # (IF crossed THEN 1 ELSE 0)}}
+    \* C04: negotiated features of an established endpoint agree with what both sides enabled, and stay put
+    \cup (IF s.st = "established" /\ (s.useil # UseIL \/ s.useifwd # UseIL \/ (s.usefwd # ~UseIL))
+          THEN {V("C04_Agreement", <<e, s.useil, s.usefwd, s.useifwd, cfg.A.il, cfg.B.il>>)} ELSE {})
+    \cup (IF s.sendzc /\ ~Cfg(Peer(e)).zc THEN {V("C04_ZeroChecksumAgreement", <<e, s.sendzc, Cfg(Peer(e)).zc>>)} ELSE {})
+    \cup (IF s.st = "established" /\ s.sendzc # Cfg(Peer(e)).zc THEN {V("C04_ZeroChecksumUsed", <<e, s.sendzc, Cfg(Peer(e)).zc>>)} ELSE {})
+    \cup (IF s.recvzc # Cfg(e).zc THEN {V("C04_ZeroChecksumAccept", <<e, s.recvzc>>)} ELSE {})
+    \cup (IF prev # NoSnap /\ prev.st = "established" /\ s.st \notin {"established"} /\ ~misc.teardown
+          THEN {V("C04_Stable", <<e, prev.st, s.st, step.ev>>)} ELSE {})
+    \cup (IF prev # NoSnap /\ prev.st = "established" /\ s.st = "established" /\ (s.useil # prev.useil \/ s.sendzc # prev.sendzc)
+          THEN {V("C04_Stable", <<e, "negotiated-changed", step.ev>>)} ELSE {})
+    \cup (IF prev # NoSnap /\ prev.st = "established" /\ s.st = "established" /\ s.rcum < prev.rcum
+          THEN {V("C04_Stable", <<e, "receiver-cum-moved-back", prev.rcum, s.rcum>>)} ELSE {})
+    \* C19: the RTO stays within [RTO.min, RTO.max] and is recomputed only from a round-trip sample of a
+    \* chunk that was transmitted exactly once (Karn) or from a heartbeat acknowledgement
+    \cup (IF s.rto < 1000 \/ s.rto > (IF Cfg(e).rtomax > 0 THEN MaxI(Cfg(e).rtomax, 1000) ELSE 60000)
+          THEN {V("C19_RtoBounds", <<e, s.rto>>)} ELSE {})
+    \cup (IF prev # NoSnap /\ s.srtt # prev.srtt
+             /\ ~(step.ev = "rx" /\ step.to = e /\ misc.nack.to = e
+                  /\ (misc.nack.hb \/ \E t \in misc.nack.set : ch[e][t].ntx = 1))
+          THEN {V("C19_KarnSample", <<e, prev.srtt, s.srtt, step.ev>>)} ELSE {})
     \* C19: a gap or a duplicate is acknowledged at once
     \cup (IF dataHanded /\ Established(s) /\ s.st = "established" /\ (sawDup \/ sawGap) /\ sk = <<>>
           THEN {V("C19_AckImmediate", <<e, IF sawDup THEN "duplicate" ELSE "gap", s.rcum>>)} ELSE {})
 
-SnapStep(s) ==
+\* C13: a packet the checksum rule rejects has no effect at all; an accepted DATA packet has one
+CkViol(e, changed) ==
+  LET isRx == step.ev = "rx" /\ step.to = e /\ step.ok /\ step.pid \in DOMAIN pkt
+      p == pkt[step.pid]
+      effect == changed \/ misc.txn[e] > 0
+  IN IF ~isRx THEN {}
+     ELSE (IF ~AcceptCk(p, e) /\ effect THEN {V("C13_RejectedHasNoEffect", <<e, p.ck, p.kinds, IF changed THEN "state-changed" ELSE "replied">>)} ELSE {})
+          \cup (IF AcceptCk(p, e) /\ p.genuine /\ ~effect /\ sn[e] # NoSnap /\ sn[e].st = "established"
+                   /\ \E i \in DOMAIN p.kinds : p.kinds[i] \in DataKinds
+                THEN {V("C13_AcceptedHasEffect", <<e, p.ck, p.kinds>>)} ELSE {})
+
+SnapStep(s, changed) ==
   LET e == s.ep
       x == RxResult(e, s)
   IN
@@ -532,20 +572,20 @@ SnapStep(s) ==
   /\ acc' = [acc EXCEPT ![e] = @ \cup x.seen]
   /\ newData' = [newData EXCEPT ![e] = <<>>]
   /\ sackEv' = [sackEv EXCEPT ![e] = <<>>]
-  /\ misc' = [misc EXCEPT !.cbs = [k \in DOMAIN @ |-> IF k[1] = e THEN 0 ELSE @[k]]]
-  /\ viol' = viol \cup SnapViol(s, x.R) \cup AckLate(s.t)
+  /\ misc' = [misc EXCEPT !.cbs = [k \in DOMAIN @ |-> IF k[1] = e THEN 0 ELSE @[k]], !.txn[e] = 0]
+  /\ viol' = viol \cup SnapViol(s, x.R) \cup AckLate(s.t) \cup CkViol(e, changed)
 
 TrSnap ==
   /\ IsEv("snap")
   /\ sn' = [sn EXCEPT ![E.ep] = E]
-  /\ SnapStep(E)
+  /\ SnapStep(E, sn[E.ep] # NoSnap)
   /\ l' = l + 1
   /\ UNCHANGED <<scen, cfg, msg, order, reads, ch, hi, pkt, rcvd, skipTo, ackCum, ackGap, arw, outst, lastSack, step>>
 
 \* "same": the endpoint's projection at this quiescent point equals its previous snapshot
 TrSame ==
   /\ IsEv("same") /\ sn[E.ep] # NoSnap
-  /\ SnapStep([sn[E.ep] EXCEPT !.t = E.t])
+  /\ SnapStep([sn[E.ep] EXCEPT !.t = E.t], FALSE)
   /\ l' = l + 1
   /\ UNCHANGED <<scen, cfg, msg, order, reads, ch, hi, pkt, rcvd, skipTo, ackCum, ackGap, arw, outst, lastSack, sn, step>>
 
@@ -567,15 +607,48 @@ TrEnd ==
 (***************************************************************************)
 (* Events that only open a step or carry information used by other specs   *)
 (***************************************************************************)
+\* connect call returned: success only for an established association (checked at the next snapshot
+\* through C04_Agreement / here against the projection when one exists)
+ApiViol(x) ==
+  IF x.op = "connect-ret" /\ x.ok /\ sn[x.ep] # NoSnap /\ sn[x.ep].st \notin {"established", "cookieEchoed", "cookieWait", "closed"}
+  THEN {V("C04_ConnectOk", <<x.ep, sn[x.ep].st>>)} ELSE {}
+
 TrApi ==
   /\ IsEv("api")
   /\ misc' = CASE E.op = "threshold" -> [misc EXCEPT !.thr = Upd(@, <<E.ep, E.sid>>, E.val), !.cbs = Upd(@, <<E.ep, E.sid>>, 0)]
                [] E.op \in {"open", "accept"} /\ E.ok -> [misc EXCEPT !.incn = Upd(@, <<E.ep, E.sid>>, Get(@, <<E.ep, E.sid>>, 0) + 1)]
+               [] E.op \in {"shutdown-call", "close-call", "abort-call", "connfail"} -> [misc EXCEPT !.teardown = TRUE]
                [] OTHER -> misc
-  /\ viol' = viol \cup AckLate(E.t)
+  /\ viol' = viol \cup AckLate(E.t) \cup ApiViol(E)
   /\ step' = E
   /\ l' = l + 1
   /\ UNCHANGED <<scen, cfg, msg, order, reads, ch, hi, pkt, rcvd, skipTo, ackCum, ackGap, arw, outst, lastSack, sackEv, sn, newData, rs, acc>>
+
+\* outcome predicted by the Handshake model for the replayed schedule
+TrHsFinal ==
+  /\ IsEv("hsfinal")
+  /\ viol' = viol
+       \* the real code left the schedule the model predicted: reported as drift (no verdict); the run was
+       \* continued over a loss-free network, so the property's own outcome must still hold
+       \cup (IF E.diverged # "" THEN {V("DRIFT_HandshakeReplay", <<E.diverged>>)} ELSE {})
+       \cup (IF E.diverged # "" /\ E.mret = <<"ok", "ok">> /\ E.ret # <<"ok", "ok">> THEN {V("C04_EstablishedUnderFaults", <<E.ret, E.diverged>>)} ELSE {})
+       \cup (IF E.diverged = "" /\ E.ret # E.mret THEN {V("C04_ConnectResult", <<E.ret, E.mret>>)} ELSE {})
+       \cup UNION {IF E.diverged = "" /\ sn[e] # NoSnap /\ sn[e].st # E.mst[e + 1] THEN {V("C04_FinalState", <<e, sn[e].st, E.mst[e + 1]>>)} ELSE {} : e \in EP}
+       \cup UNION {IF E.diverged = "" /\ sn[e] # NoSnap /\ E.mst[e + 1] = "established" /\ (sn[e].useil # E.museil[e + 1] \/ sn[e].sendzc # E.msendz[e + 1])
+                   THEN {V("C04_NegotiatedAsModel", <<e, sn[e].useil, sn[e].sendzc>>)} ELSE {} : e \in EP}
+  /\ l' = l + 1
+  /\ UNCHANGED <<scen, cfg, msg, order, reads, ch, hi, pkt, rcvd, skipTo, ackCum, ackGap, arw, outst, lastSack, sackEv, sn, step, newData, misc, rs, acc>>
+
+\* special handshake scenarios: a client whose peer never answers gets an error exactly when the
+\* retry budget is exhausted; a waiting server returns as soon as its transport is closed
+TrHsSpecial ==
+  /\ IsEv("hsspecial")
+  /\ viol' = viol
+       \cup (IF ~E.returned THEN {V("C04_ConnectReturns", <<E.what, E.t>>)} ELSE {})
+       \cup (IF E.returned /\ E.err = "nil" THEN {V("C04_ConnectFails", <<E.what, E.err>>)} ELSE {})
+       \cup (IF E.returned /\ E.t # E.expect_t THEN {V("C04_ConnectBoundedTime", <<E.what, E.t, E.expect_t>>)} ELSE {})
+  /\ l' = l + 1
+  /\ UNCHANGED <<scen, cfg, msg, order, reads, ch, hi, pkt, rcvd, skipTo, ackCum, ackGap, arw, outst, lastSack, sackEv, sn, step, newData, misc, rs, acc>>
 
 TrCb ==
   /\ IsEv("cb")
@@ -632,7 +705,7 @@ TrPassive ==
   /\ UNCHANGED <<scen, cfg, msg, order, reads, ch, hi, pkt, rcvd, skipTo, ackCum, ackGap, arw, outst, lastSack, sackEv, sn, newData, misc, rs, acc, viol>>
 
 Next == TrCfg \/ TrWCall \/ TrWrite \/ TrRead \/ TrTx \/ TrForge \/ TrChunkData \/ TrChunkSack \/ TrChunkFwd \/ TrChunkOther
-        \/ TrRx \/ TrSnap \/ TrSame \/ TrEnd \/ TrApi \/ TrCb \/ TrTick \/ TrExpect \/ TrDiff \/ TrPassive
+        \/ TrRx \/ TrSnap \/ TrSame \/ TrEnd \/ TrApi \/ TrCb \/ TrTick \/ TrExpect \/ TrDiff \/ TrHsFinal \/ TrHsSpecial \/ TrPassive
 
 Spec == Init /\ [][Next]_vars
 
